@@ -52,6 +52,10 @@ pub struct Request {
     /// after the last snippet: drop the Vm, force a collection, report heap statistics
     #[serde(default)]
     pub drop_vm_stats: bool,
+    /// run the request on a thread with a stack of this many KiB (the interpreter's recursion over
+    /// data then meets the limit an embedding with an ordinary thread would meet)
+    #[serde(default)]
+    pub stack_kb: Option<usize>,
 }
 
 #[derive(Serialize, Deserialize, Clone, Debug, PartialEq)]
